@@ -46,9 +46,9 @@ type c13Dispatcher struct {
 	posted []func()
 }
 
-func (d *c13Dispatcher) runLoop() error                    { return nil }
+func (d *c13Dispatcher) runLoop() error                   { return nil }
 func (d *c13Dispatcher) newConnection(*os.File) eventConn { return nil }
-func (d *c13Dispatcher) shutdown() error                   { return nil }
+func (d *c13Dispatcher) shutdown() error                  { return nil }
 func (d *c13Dispatcher) post(f func()) {
 	d.mu.Lock()
 	d.posted = append(d.posted, f)
@@ -231,12 +231,12 @@ type c13Case struct {
 	Cuts     [][]int     `json:"cuts"`
 	Obs      []c13Obs    `json:"obs"`
 	// handshake / metadata cases
-	HsClass   string `json:"hs_class,omitempty"` // panic | err | ok
-	HsReplies string `json:"hs_replies,omitempty"`
-	MetaPanic bool   `json:"meta_panic,omitempty"`
-	MetaErr   bool   `json:"meta_err,omitempty"`
-	MetaQ     string `json:"meta_q,omitempty"`
-	MetaB     string `json:"meta_b,omitempty"`
+	HsClass   string    `json:"hs_class,omitempty"` // panic | err | ok
+	HsReplies string    `json:"hs_replies,omitempty"`
+	MetaPanic bool      `json:"meta_panic,omitempty"`
+	MetaErr   bool      `json:"meta_err,omitempty"`
+	MetaQ     string    `json:"meta_q,omitempty"`
+	MetaB     string    `json:"meta_b,omitempty"`
 	Oracle    []c13Fail `json:"oracle"`
 	Feat      []string  `json:"feat"`
 }
@@ -788,6 +788,122 @@ func (g *c13Gen) evCase(id int) *c13Case {
 	return c
 }
 
+// A long well-formed sequence (tens of KiB: fallback data with sizeable payloads mixed with small events), so that
+// the read buffer accumulates more than half of its size in already-handled events in front of a pending partial
+// event, is compacted / doubled with a non-zero start offset, and receives more bytes afterwards.  Deliveries:
+// whole; cuts on event boundaries; a cut inside an event early in the buffer; a cut inside an event after more than
+// half of the 64 KiB buffer has been consumed (then a few bytes, then the rest); repeated large pieces that each end
+// inside an event.
+func (g *c13Gen) longCase(id int) *c13Case {
+	r := g.r
+	c := &c13Case{ID: id, Kind: "ev", Class: "long", Listener: true, Epoch: r.u64(),
+		LState: int(hotRestartState), SState: int(hotRestartState)}
+	if r.chance(30) {
+		c.Streams = append(c.Streams, [2]uint32{uint32(1 + r.intn(6)), 0})
+	}
+	target := 38000 + r.intn(30000)
+	if r.chance(15) {
+		target = 70000 + r.intn(60000) // several fill / compact cycles
+	}
+	var data []byte
+	var bounds []int
+	for len(data) < target {
+		var ev []byte
+		switch r.intn(10) {
+		case 0:
+			ev = g.event(uint8(typePolling), c.Epoch)
+		case 1:
+			ev = g.event(uint8(typeStreamClose), c.Epoch)
+		case 2:
+			ev = g.event(uint8(typeHotRestartAck), c.Epoch)
+		case 3:
+			ev = g.event(uint8(typeFallbackData), c.Epoch)
+		default:
+			pl := r.pick([]int{200, 700, 1500, 3000, 4096, 6000, 9000}) + r.intn(100)
+			ev = c13Header(uint32(headerSize+8+pl), magicNumber, g.version(), uint8(typeFallbackData))
+			f := make([]byte, 8)
+			binary.BigEndian.PutUint32(f[0:4], uint32(1+r.intn(6)))
+			binary.BigEndian.PutUint32(f[4:8], uint32(r.pick([]int{0, 0, 0, 2, 77})))
+			ev = append(append(ev, f...), g.bytes(pl)...)
+		}
+		data = append(data, ev...)
+		bounds = append(bounds, len(data))
+	}
+	n := len(data)
+	c.Bytes = hex.EncodeToString(data)
+	fromPoints := func(pts []int) []int {
+		sort.Ints(pts)
+		var pieces []int
+		prev := 0
+		for _, p := range append(pts, n) {
+			if p > prev && p <= n {
+				pieces = append(pieces, p-prev)
+				prev = p
+			}
+		}
+		return pieces
+	}
+	inside := func(lo, hi int) int { // a position strictly inside the event that covers [lo, hi)
+		if hi-lo < 2 {
+			return hi
+		}
+		return lo + 1 + r.intn(hi-lo-1)
+	}
+	evStart := func(j int) int {
+		if j == 0 {
+			return 0
+		}
+		return bounds[j-1]
+	}
+	c.Cuts = [][]int{{n}}
+	// (i) on event boundaries
+	var pts []int
+	for i, k := 0, 2+r.intn(6); i < k; i++ {
+		pts = append(pts, bounds[r.intn(len(bounds))])
+	}
+	c.Cuts = append(c.Cuts, fromPoints(pts))
+	// (ii) inside an event early in the buffer, then a few more cuts
+	j := r.intn(minInt(4, len(bounds)))
+	pts = []int{inside(evStart(j), bounds[j])}
+	for i, k := 0, 1+r.intn(3); i < k; i++ {
+		pts = append(pts, 1+r.intn(n))
+	}
+	c.Cuts = append(c.Cuts, fromPoints(pts))
+	// (iii) inside an event after more than half of the initial buffer has been consumed, buffer not full
+	j = 0
+	for j < len(bounds)-1 && bounds[j] <= 33000 {
+		j++
+	}
+	for j+1 < len(bounds) && bounds[j+1] < 60000 && r.chance(50) {
+		j++
+	}
+	p := inside(bounds[j], bounds[minInt(j+1, len(bounds)-1)])
+	if p > 65000 {
+		p = bounds[j] + 1 + r.intn(minInt(64, n-bounds[j]))
+	}
+	pts = []int{p, p + 1 + r.intn(9)}
+	if r.chance(50) {
+		pts = append(pts, p+20+r.intn(3000))
+	}
+	c.Cuts = append(c.Cuts, fromPoints(pts))
+	// (iv) repeated large pieces, each ending inside an event
+	pts = nil
+	for pos := 0; pos < n; {
+		pos += 34000 + r.intn(25000)
+		if pos >= n {
+			break
+		}
+		k := sort.SearchInts(bounds, pos+1)
+		if k < len(bounds) && bounds[k]-evStart(k) >= 2 {
+			pts = append(pts, inside(evStart(k), bounds[k]))
+		} else {
+			pts = append(pts, pos)
+		}
+	}
+	c.Cuts = append(c.Cuts, fromPoints(pts))
+	return c
+}
+
 // ---------------------------------------------------------------------------------------------
 // the property oracle (independent of the Coq model)
 // ---------------------------------------------------------------------------------------------
@@ -795,7 +911,7 @@ func (g *c13Gen) evCase(id int) *c13Case {
 func c13SameEffect(a, b *c13Obs) string {
 	la, lb := a.Calls[len(a.Calls)-1][1], b.Calls[len(b.Calls)-1][1]
 	if la != lb {
-		return fmt.Sprintf("final outcome differs (%d vs %d)", la, lb)
+		return fmt.Sprintf("final outcome differs|outcome code %d for the whole delivery, %d for the pieces", la, lb)
 	}
 	if fmt.Sprint(a.Streams) != fmt.Sprint(b.Streams) {
 		return "per-stream bytes/state differ"
@@ -834,18 +950,23 @@ func c13Oracle(c *c13Case) {
 			continue
 		}
 		if d := c13SameEffect(&c.Obs[0], &c.Obs[i]); d != "" {
-			c.Oracle = append(c.Oracle, c13Fail{"C13: effect depends on how the bytes were cut: " + d,
-				fmt.Sprintf("whole delivery vs pieces %v: %s", c.Cuts[i], d)})
+			sig := strings.SplitN(d, "|", 2)[0] // stable class of the difference, no numbers
+			c.Oracle = append(c.Oracle, c13Fail{"C13: effect depends on how the bytes were cut: " + sig,
+				fmt.Sprintf("whole delivery vs pieces %v: %s", c.Cuts[i], strings.Replace(d, "|", ": ", 1))})
 			break
 		}
 	}
-	if c.Class == "valid" && len(c.Obs) > 0 && len(c.Obs[0].Calls) > 0 {
-		last := c.Obs[0].Calls[len(c.Obs[0].Calls)-1]
-		if last[1] == 0 && c.Obs[0].Leftover != 0 {
-			c.Oracle = append(c.Oracle, c13Fail{"C13: well-formed event sequence not fully consumed", fmt.Sprintf("leftover %d", c.Obs[0].Leftover)})
+	for i := range c.Obs {
+		// a well-formed sequence is accepted and consumed completely, however it is cut
+		if (c.Class != "valid" && c.Class != "long") || len(c.Obs[i].Calls) == 0 || len(c.Oracle) > 0 {
+			continue
+		}
+		last := c.Obs[i].Calls[len(c.Obs[i].Calls)-1]
+		if last[1] == 0 && c.Obs[i].Leftover != 0 {
+			c.Oracle = append(c.Oracle, c13Fail{"C13: well-formed event sequence not fully consumed", fmt.Sprintf("pieces %v: leftover %d", c.Cuts[i], c.Obs[i].Leftover)})
 		}
 		if last[1] == 1 || last[1] == 2 {
-			c.Oracle = append(c.Oracle, c13Fail{"C13: well-formed event sequence rejected", fmt.Sprintf("calls %v", c.Obs[0].Calls)})
+			c.Oracle = append(c.Oracle, c13Fail{"C13: well-formed event sequence rejected", fmt.Sprintf("pieces %v: calls %v", c.Cuts[i], c.Obs[i].Calls)})
 		}
 	}
 }
@@ -1154,8 +1275,14 @@ func TestVerif_C13(t *testing.T) {
 
 	nHs := n / 6
 	nMeta := n / 6
-	for i := 0; i < n; i++ {
-		c := g.evCase(i)
+	nLong := n/250 + 1
+	for i := 0; i < n+nLong; i++ {
+		var c *c13Case
+		if i < n {
+			c = g.evCase(i)
+		} else {
+			c = g.longCase(3*n + i)
+		}
 		if subjSrv.s.bufferManager.remainSize() < initialFree/2 {
 			newPair()
 		}
